@@ -125,7 +125,10 @@ Apply(A) ==
 
 Step == l' = l + 1
 KeepAux == UNCHANGED <<pend, rot, atag>>
-NoPend == [kind |-> "none"]
+(* one slot per kind of operation in flight, so that operations of different kinds may overlap *)
+NoneP == [kind |-> "none"]
+NoPend == [reg |-> NoneP, auth |-> <<>>, stats |-> NoneP, batch |-> NoneP, authsrv |-> NoneP,
+           migrate |-> NoneP, crashed |-> NoneP, sync |-> NoneP]
 
 -----------------------------------------------------------------------------
 TReset ==
@@ -170,7 +173,7 @@ TStart ==
                   /\ UNCHANGED <<now, gca, equip, pkidx, bans, offset, live,
                                  impact, archive, servers, migr, disk, seen>>
           /\ UNCHANGED atag
-  /\ UNCHANGED <<pend, rot>>
+  /\ pend' = [pend EXCEPT !.crashed = NoneP] /\ UNCHANGED rot
 
 TClose ==
   /\ Ev.a = "Close"
@@ -238,30 +241,30 @@ TRecvReport ==
 TUDPRead == Ev.a \in {"UDPRead", "DriverNote"} /\ UNCHANGED vars /\ KeepAux
 
 TRegister ==
-  /\ Ev.a = "Register" /\ pend.kind # "batch"
+  /\ Ev.a = "Register" /\ pend.batch.kind # "batch"
   /\ Apply(Register(Ev.k, UnSig(Ev.sig)))
-  /\ pend' = [kind |-> "reg", ok |-> RegisterOK(Ev.k, UnSig(Ev.sig))]
+  /\ pend' = [pend EXCEPT !.reg = [kind |-> "reg", ok |-> RegisterOK(Ev.k, UnSig(Ev.sig))]]
   /\ UNCHANGED <<rot, atag>>
 
 TRegisterResp ==
   /\ Ev.a = "RegisterResp"
-  /\ ("Register" \in Strict /\ pend.kind = "reg" => (Ev.status = 200) = pend.ok)
-  /\ ("Register" \in Strict /\ pend.kind # "reg" => Ev.status # 200)
-  /\ pend' = NoPend
+  /\ ("Register" \in Strict /\ pend.reg.kind = "reg" => (Ev.status = 200) = pend.reg.ok)
+  /\ ("Register" \in Strict /\ pend.reg.kind # "reg" => Ev.status # 200)
+  /\ pend' = [pend EXCEPT !.reg = NoneP]
   /\ UNCHANGED <<vars, rot, atag>>
 
 TAuthorize ==
   /\ Ev.a = "Authorize"
   /\ Apply(Authorize(UnAuth(Ev.auth)))
   /\ PostSane(Ev.post)
-  /\ pend' = [kind |-> "auth", ok |-> AuthOutcome(UnAuth(Ev.auth)) \in {"new", "same"}]
+  /\ pend' = [pend EXCEPT !.auth = Put(@, Ev.auth.id, AuthOutcome(UnAuth(Ev.auth)) \in {"new", "same"})]
   /\ UNCHANGED <<rot, atag>>
 
 TAuthorizeResp ==
   /\ Ev.a = "AuthorizeResp"
-  /\ ("Authorize" \in Strict /\ pend.kind = "auth" => (Ev.status = 200) = pend.ok)
-  /\ ("Authorize" \in Strict /\ pend.kind # "auth" => Ev.status # 200)
-  /\ pend' = NoPend
+  /\ ("Authorize" \in Strict /\ Ev.id \in DOMAIN pend.auth => (Ev.status = 200) = pend.auth[Ev.id])
+  /\ ("Authorize" \in Strict /\ Ev.id \notin DOMAIN pend.auth => Ev.status # 200)
+  /\ pend' = [pend EXCEPT !.auth = Del(@, Ev.id)]
   /\ UNCHANGED <<vars, rot, atag>>
 
 TImpactList ==
@@ -271,7 +274,6 @@ TImpactList ==
 
 TImpactSet ==
   /\ Ev.a = "ImpactSet"
-  /\ ("ImpactSet" \in Strict => ImpactSetSafe(Ev.id, Ev.ts))
   /\ ImpactSet(Ev.id, Ev.ts, Ev.bits)
   /\ KeepAux
 
@@ -280,21 +282,21 @@ TQueryStats ==
   /\ Ev.a = "QueryStats"
   /\ Apply(UNCHANGED vars)
   /\ PostSane(Ev.post)
-  /\ pend' = [kind |-> "stats", tso |-> Ev.tso, ans |-> StatsAnswer(Ev.tso)]
+  /\ pend' = [pend EXCEPT !.stats = [kind |-> "stats", tso |-> Ev.tso, ans |-> StatsAnswer(Ev.tso)]]
   /\ UNCHANGED <<rot, atag>>
 
 (* the reply as decoded by the driver *)
 TStatsResp ==
   /\ Ev.a = "StatsResp"
   /\ ("QueryStats" \in Strict =>
-        LET exp == IF pend.kind = "stats" /\ pend.tso = Ev.tso THEN pend.ans
+        LET exp == IF pend.stats.kind = "stats" /\ pend.stats.tso = Ev.tso THEN pend.stats.ans
                    ELSE StatsAnswer(Ev.tso)
         IN  IF exp = Refused THEN Ev.status # 200
             ELSE /\ Ev.status = 200
                  /\ Ev.neg \/ UnWeek(Ev.resp) = exp
                  \* an archived week is served with the very same signature forever
                  /\ (~Ev.neg /\ Ev.tso < offset) => Ev.resp.tag = atag[Ev.tso \div WeekLen + 1])
-  /\ pend' = NoPend
+  /\ pend' = [pend EXCEPT !.stats = NoneP]
   /\ UNCHANGED <<vars, rot, atag>>
 
 (* The invariants and step properties selected by the .cfg are evaluated on *)
@@ -322,7 +324,7 @@ BansMonotoneStep == Ev.a # "Reset" => bans \subseteq bans'
 (* cache lazily evaluated arguments of recursive operators in primed        *)
 (* expressions.                                                             *)
 RestartEquivAtStart ==
-  (Ev.a = "StartBegin" /\ disk.keys # "absent" /\ pend.kind # "crashed") => RestartEquivNow
+  (Ev.a = "StartBegin" /\ disk.keys # "absent" /\ pend.crashed.kind # "crashed") => RestartEquivNow
 
 (* C17, server side: an entry changes only to become banned; banned stays *)
 SrvListStep ==
@@ -373,19 +375,19 @@ TCheckInv ==
 (* a batch of concurrent registrations: replies are counted, not matched *)
 TBatchBegin ==
   /\ Ev.a = "BatchBegin"
-  /\ pend' = [kind |-> "batch", n |-> 0]
+  /\ pend' = [pend EXCEPT !.batch = [kind |-> "batch", n |-> 0]]
   /\ UNCHANGED <<vars, rot, atag>>
 
 TRegisterInBatch ==
-  /\ Ev.a = "Register" /\ pend.kind = "batch"
+  /\ Ev.a = "Register" /\ pend.batch.kind = "batch"
   /\ Apply(Register(Ev.k, UnSig(Ev.sig)))
-  /\ pend' = [pend EXCEPT !.n = @ + (IF RegisterOK(Ev.k, UnSig(Ev.sig)) THEN 1 ELSE 0)]
+  /\ pend' = [pend EXCEPT !.batch.n = @ + (IF RegisterOK(Ev.k, UnSig(Ev.sig)) THEN 1 ELSE 0)]
   /\ UNCHANGED <<rot, atag>>
 
 TBatchEnd ==
   /\ Ev.a = "BatchEnd"
-  /\ ("Register" \in Strict => pend.kind = "batch" /\ Ev.n200 = pend.n)
-  /\ pend' = NoPend
+  /\ ("Register" \in Strict => pend.batch.kind = "batch" /\ Ev.n200 = pend.batch.n)
+  /\ pend' = [pend EXCEPT !.batch = NoneP]
   /\ UNCHANGED <<vars, rot, atag>>
 
 (* authorized servers: the hook fires under gcaServers.mu on every path that *)
@@ -400,15 +402,15 @@ TAuthorizeServer ==
      ELSE /\ servers' = UnServers(Ev.servers)
           /\ UNCHANGED <<now, up, gca, equip, pkidx, bans, offset, live, impact,
                          archive, migr, disk, seen>>
-  /\ pend' = [kind |-> "authsrv"]
+  /\ pend' = [pend EXCEPT !.authsrv = [kind |-> "authsrv"]]
   /\ UNCHANGED <<rot, atag>>
 
 TAuthorizeServerResp ==
   /\ Ev.a = "AuthorizeServerResp"
   /\ ("AuthorizeServer" \in Strict =>
-        IF pend.kind = "authsrv" THEN Ev.status = 200
+        IF pend.authsrv.kind = "authsrv" THEN Ev.status = 200
         ELSE Ev.status # 200 /\ ~Valid(UnSig(Ev.as.sig), gca.key))
-  /\ pend' = NoPend
+  /\ pend' = [pend EXCEPT !.authsrv = NoneP]
   /\ UNCHANGED <<vars, rot, atag>>
 
 TServersResp ==
@@ -420,15 +422,15 @@ TMigrate ==
   /\ Ev.a = "Migrate"
   /\ (IsStrict => MigrationOK(UnMig(Ev.m)))
   /\ Apply(Migrate(UnMig(Ev.m)))
-  /\ pend' = [kind |-> "migrate"]
+  /\ pend' = [pend EXCEPT !.migrate = [kind |-> "migrate"]]
   /\ UNCHANGED <<rot, atag>>
 
 TMigrateResp ==
   /\ Ev.a = "MigrateResp"
   /\ ("Migrate" \in Strict =>
-        IF pend.kind = "migrate" THEN Ev.status = 200
+        IF pend.migrate.kind = "migrate" THEN Ev.status = 200
         ELSE Ev.status # 200 /\ ~MigrationOK(UnMig(Ev.m)))
-  /\ pend' = NoPend
+  /\ pend' = [pend EXCEPT !.migrate = NoneP]
   /\ UNCHANGED <<vars, rot, atag>>
 
 (* C05.  The process was killed (at an armed crash point or by SIGKILL).    *)
@@ -440,7 +442,7 @@ TCrash ==
   /\ Ev.a = "Crash"
   /\ up' = "down"
   /\ UNCHANGED <<now, gca, equip, pkidx, bans, offset, live, impact, archive, servers, migr, disk, seen>>
-  /\ pend' = [kind |-> "crashed", phase |-> up] /\ UNCHANGED <<rot, atag>>
+  /\ pend' = [pend EXCEPT !.crashed = [kind |-> "crashed", phase |-> up]] /\ UNCHANGED <<rot, atag>>
 TDiskIs ==
   /\ Ev.a = "DiskIs"
   /\ LET r == UnDisk(Ev.disk) IN
@@ -451,7 +453,7 @@ TDiskIs ==
            /\ (r.gcafile = disk.gcafile \/ disk.gcafile \in {"absent", "empty"})
            /\ \/ r.keys = disk.keys \/ disk.keys \in {"absent", "empty"}
               \* killed inside the very first start: the key file was created, not yet written
-              \/ (pend.kind = "crashed" /\ pend.phase = "catchup" /\ r.keys = "empty"
+              \/ (pend.crashed.kind = "crashed" /\ pend.crashed.phase = "catchup" /\ r.keys = "empty"
                     /\ r.auths = <<>> /\ r.gcafile = "absent")
            \* at most one write was in flight
            /\ Cardinality({f \in {"auths", "reports", "stats", "gcafile"} :
@@ -484,34 +486,34 @@ TLogPanics ==
 TSyncRead ==
   /\ Ev.a = "SyncRead"
   /\ Apply(UNCHANGED vars)
-  /\ pend' = [kind |-> "sync", id |-> Ev.id, data |-> SyncData(Ev.id), list |-> <<>>]
+  /\ pend' = [pend EXCEPT !.sync = [kind |-> "sync", id |-> Ev.id, data |-> SyncData(Ev.id), list |-> <<>>]]
   /\ UNCHANGED <<rot, atag>>
 
 TSyncServers ==
   /\ Ev.a = "SyncServers"
-  /\ ("SyncRead" \in Strict => pend.kind = "sync" /\ UnServers(Ev.servers) = servers)
-  /\ pend' = IF pend.kind = "sync" THEN [pend EXCEPT !.list = servers] ELSE pend
+  /\ ("SyncRead" \in Strict => pend.sync.kind = "sync" /\ UnServers(Ev.servers) = servers)
+  /\ pend' = IF pend.sync.kind = "sync" THEN [pend EXCEPT !.sync.list = servers] ELSE pend
   /\ UNCHANGED <<vars, rot, atag>>
 
 UnBits(b) == {b[i] : i \in DOMAIN b}
 TSyncResp ==
   /\ Ev.a = "SyncResp"
   /\ ("SyncRead" \in Strict =>
-        IF pend.kind # "sync" \/ pend.id # Ev.id
+        IF pend.sync.kind # "sync" \/ pend.sync.id # Ev.id
         THEN FALSE
-        ELSE IF ~pend.data.known THEN Ev.refused
+        ELSE IF ~pend.sync.data.known THEN Ev.refused
         ELSE /\ ~Ev.refused
-             /\ Ev.key = pend.data.key
-             /\ Ev.offset = pend.data.offset
-             /\ UnBits(Ev.bits) = pend.data.bits
-             /\ Ev.mig.present = pend.data.mig.present
-             /\ (pend.data.mig.present =>
-                    /\ Ev.mig.newgca = pend.data.mig.newgca /\ Ev.mig.newid = pend.data.mig.newid
-                    /\ UnSig(Ev.mig.sig) = pend.data.mig.sig
-                    /\ UnServers(Ev.servers) = pend.data.migservers)
-             /\ (~pend.data.mig.present => UnServers(Ev.servers) = pend.list)
+             /\ Ev.key = pend.sync.data.key
+             /\ Ev.offset = pend.sync.data.offset
+             /\ UnBits(Ev.bits) = pend.sync.data.bits
+             /\ Ev.mig.present = pend.sync.data.mig.present
+             /\ (pend.sync.data.mig.present =>
+                    /\ Ev.mig.newgca = pend.sync.data.mig.newgca /\ Ev.mig.newid = pend.sync.data.mig.newid
+                    /\ UnSig(Ev.mig.sig) = pend.sync.data.mig.sig
+                    /\ UnServers(Ev.servers) = pend.sync.data.migservers)
+             /\ (~pend.sync.data.mig.present => UnServers(Ev.servers) = pend.sync.list)
              /\ Ev.listok /\ Ev.sigok /\ Ev.fresh)
-  /\ pend' = NoPend
+  /\ pend' = [pend EXCEPT !.sync = NoneP]
   /\ UNCHANGED <<vars, rot, atag>>
 
 TNext ==
